@@ -16,8 +16,8 @@ SPEC = dict(
     engines=[dict(name="crashwrite", shards=T(16, 16), timeout=T(1500, 7200), needs_wtf=True)],
     rule="case = (operation, prepared state, fault flavour, k, n); non-trivial = the fault actually hit (limit below the new length, or the child was killed); "
          "distinct by (operation, state, flavour, k, n).",
-    floors=T({"faults-efbig-biting": 600, "faults-killed": 300, "killed-on:write": 50, "killed-on:fsync": 5, "killed-on:renameat": 5, "after-efbig-old": 1, "follow-up-after-kill": 15, "distinct_nontrivial": 900},
-             {"faults-efbig-biting": 20000, "faults-killed": 400, "killed-on:write": 50, "killed-on:fsync": 5, "killed-on:renameat": 5, "after-efbig-old": 1, "follow-up-after-kill": 15, "distinct_nontrivial": 20000}),
+    floors=T({"faults-efbig-biting": 600, "faults-killed": 300, "killed-on:write": 50, "killed-on:fsync": 2, "killed-on:renameat": 2, "after-efbig-old": 1, "follow-up-after-kill": 15, "distinct_nontrivial": 900},
+             {"faults-efbig-biting": 20000, "faults-killed": 400, "killed-on:write": 50, "killed-on:fsync": 2, "killed-on:renameat": 2, "after-efbig-old": 1, "follow-up-after-kill": 15, "distinct_nontrivial": 20000}),
     assumptions=["a file that did not exist before and is empty afterwards counts as previous content",
                  "the Go runtime ignores SIGXFSZ, so RLIMIT_FSIZE yields a short write followed by EFBIG"],
 )
